@@ -22,7 +22,7 @@ ASSUMPTIONS = [
     'decimal strings are positional (no exponent form); bool/Decimal/range carriers are outside the statement',
     'numpy is trusted only to build input containers and to hand back stored integers',
 ]
-EXHAUSTIVE = True
+EXHAUSTIVE = False    # the whole quantifier is not enumerated; complete sub-domains are listed in EXHAUSTIVE_SUBDOMAINS
 EXHAUSTIVE_SUBDOMAINS = {
     'quick': ['n_word<=6 x n_frac -8..n_word+8 x 10 modes x quarter-LSB grid over 3x range: float64-array carriers x {ctor,call,set_val,setitem}, scalar float ctor'],
     'thorough': ['n_word<=6 grid as quick, plus n_word<=5 grid x every exact scalar carrier x 4 routes'],
